@@ -235,8 +235,9 @@ def int_boundary(r, crate):
                 and all(not v["fields"] for v in crate.adts[t]["variants"]):
             sign_i, sign_vals = i, [Adt(t, v["idx"], [], v["name"]) for v in crate.adts[t]["variants"]]
     if len(mag_i) != 1 or sign_i is None or len(rad_i) > 1:
-        r.anchor_missing("parse_num_tail(radix, sign, magnitude: u64) (parameter types %s)" % sorted(tys.values()))
-        return
+        # the parts of the literal travel in another form (a private struct): the boundary literals are evaluated from
+        # their digits through the digit loop instead
+        return _int_boundary_from_digits(r, crate, f, nv, inl)
 
     def run_tail(sv, mag):
         a = {mag_i[0]: mag, sign_i: sv}
@@ -289,6 +290,94 @@ def int_boundary(r, crate):
                 r.violation(f.path, "int-boundary:%s" % lit,
                             "the literal %s is stored as %s instead of %s: an integer inside [-2^63, 2^64-1] must stay "
                             "exactly that integer, one outside becomes a float" % (lit, sorted(outs, key=repr), sorted(want, key=repr)), f.loc())
+    r.floor("boundary-cases", n)
+
+
+def _u64_part(crate, g, d):
+    """The u64 among the arguments handed to `g` (the magnitude of a literal): a parameter of that type, or the one
+    u64 field of a private struct parameter."""
+    from ..sim import Adt
+    found = []
+    for i in range(1, (g.arg_count if g else 0) + 1):
+        if i - 1 >= len(d):
+            continue
+        ty = g.local_ty(i)
+        if ty == "u64":
+            found.append(d[i - 1])
+        elif ty in crate.adts and crate.adts[ty]["kind"] == "struct" and isinstance(d[i - 1], Adt):
+            fl = crate.adts[ty]["variants"][0]["fields"]
+            found += [d[i - 1].fields[k] for k, x in enumerate(fl) if x["ty"] == "u64" and k < len(d[i - 1].fields)]
+    return found[0] if len(found) == 1 else None
+
+
+def _int_boundary_from_digits(r, crate, tail, nv, inl):
+    from .. import lex, sim
+    from ..sim import Adt
+    P = "parse::Parser::<R>::"
+    f = crate.fn(P + "parse_num_literal")
+    if f is None:
+        r.anchor_missing("parse_num_tail(radix, sign, magnitude: u64) / parse_num_literal")
+        return
+    tys = {i: f.local_ty(i) for i in range(2, f.arg_count + 1)}
+    rad_i = [i for i, t in tys.items() if t in ("u32", "u8", "u16", "usize")]
+    sign_i, sign_vals = None, None
+    for i, t in tys.items():
+        if t == "bool":
+            sign_i, sign_vals = i, [1, 0]
+        elif t in crate.adts and crate.adts[t]["kind"] == "enum" and len(crate.adts[t]["variants"]) == 2 \
+                and all(not v["fields"] for v in crate.adts[t]["variants"]):
+            sign_i, sign_vals = i, [Adt(t, v["idx"], [], v["name"]) for v in crate.adts[t]["variants"]]
+    if len(rad_i) != 1 or sign_i is None:
+        r.anchor_missing("parse_num_literal(radix, sign) (parameter types %s)" % sorted(tys.values()))
+        return
+    local_ctor = lambda a, b: b.crate == crate.name and b.file.endswith("parse/mod.rs") and b.kind != "closure" and lex.scalar_fn(b)
+    inl2 = lambda a, b: inl(a, b) or b.path == tail.path or local_ctor(a, b)
+
+    def run(sv, mag):
+        digits = str(mag)
+        seq = [ord(c) for c in digits] + [0x20]
+        S = sim.Sim([crate], hooks={"call": lex.seq_hook(seq)}, inline=inl2, max_visits=len(digits) + 4, max_paths=4000, max_depth=7)
+        outs = set()
+        try:
+            for p in S.run(f, args={rad_i[0]: 10, sign_i: sv}):
+                v = p.ret
+                if p.end == "return" and isinstance(v, Adt) and v.variant == 0 and isinstance(v.fields[0], Adt) \
+                        and v.fields[0].fields and isinstance(v.fields[0].fields[0], Adt):
+                    nn = v.fields[0].fields[0]
+                    outs.add((nn.variant, nn.fields[0] if nn.fields and isinstance(nn.fields[0], int) else None))
+                elif p.end == "return" and isinstance(v, Adt) and v.variant == 1:
+                    outs.add(("err", None))
+                else:
+                    outs.add(("?", str(p.end)))
+        except sim.Limit:
+            outs = {("?", "limit")}
+        return outs
+
+    pos_v = [sv for sv in sign_vals if run(sv, 5) == {(nv["PosInt"], 5)}]
+    neg_v = [sv for sv in sign_vals if run(sv, 5) == {(nv["NegInt"], -5)}]
+    if len(pos_v) != 1 or len(neg_v) != 1:
+        r.violation(f.path, "int-boundary:5", "the literals 5 and -5 are not stored as PosInt(5) / NegInt(-5): %s" % [
+            sorted(run(sv, 5), key=repr) for sv in sign_vals], f.loc())
+        return
+    n = 0
+    for mag in (0, 1, (1 << 63) - 1, 1 << 63, (1 << 63) + 1, (1 << 64) - 1):
+        for pos in (1, 0):
+            n += 1
+            outs = run(pos_v[0] if pos else neg_v[0], mag)
+            val = mag if pos else -mag
+            if 0 <= val <= (1 << 64) - 1:
+                want = {(nv["PosInt"], val)}
+            elif -(1 << 63) <= val < 0:
+                want = {(nv["NegInt"], val)}
+            else:
+                want = {(nv["Float"], None)}
+            lit = "%s%d" % ("" if pos else "-", mag)
+            if outs == want:
+                r.ok("literal %s (read digit by digit) -> %s" % (lit, "PosInt" if val >= 0 else ("NegInt" if val >= -(1 << 63) else "Float")), f)
+            else:
+                r.violation(tail.path, "int-boundary:%s" % lit,
+                            "the literal %s is stored as %s instead of %s: an integer inside [-2^63, 2^64-1] must stay "
+                            "exactly that integer, one outside becomes a float" % (lit, sorted(outs, key=repr), sorted(want, key=repr)), tail.loc())
     r.floor("boundary-cases", n)
 
 
@@ -499,7 +588,7 @@ def digit_accumulation(ctx, crate):
                 def extra(S, fn, bb, t, args, path, names, reached=reached):
                     if P + "parse_num_tail" in names:
                         d = [S._deref(a, path) for a in args]
-                        reached["tail"] = d[3] if len(d) > 3 else None
+                        reached["tail"] = _u64_part(crate, crate.fn(P + "parse_num_tail"), d)
                         return ("stop", "tail")
                     if P + "parse_long_integer" in names:
                         reached["long"] = True
@@ -507,8 +596,13 @@ def digit_accumulation(ctx, crate):
                         # first (consumed - exponent) digits, the exponent counts the digits read but left out of it
                         g = crate.fn(P + "parse_long_integer")
                         d = [S._deref(a, path) for a in args]
-                        sig = [d[i - 1] for i in range(1, (g.arg_count if g else 0) + 1) if g.local_ty(i) == "u64" and i - 1 < len(d)]
+                        sig = [_u64_part(crate, g, d)]
                         exp = [d[i - 1] for i in range(1, (g.arg_count if g else 0) + 1) if g.local_ty(i) == "i32" and i - 1 < len(d)]
+                        for i in range(1, (g.arg_count if g else 0) + 1):
+                            ty = g.local_ty(i)
+                            if ty in crate.adts and crate.adts[ty]["kind"] == "struct" and i - 1 < len(d) and isinstance(d[i - 1], sim.Adt):
+                                fl = crate.adts[ty]["variants"][0]["fields"]
+                                exp += [d[i - 1].fields[k] for k, x in enumerate(fl) if x["ty"] == "i32" and k < len(d[i - 1].fields)]
                         consumed = sum(1 for e in path.events if e[0] == "call" and (
                             lex.read_kind(e[1]) == "next" or any(x in e[1] for x in lex.DISCARDS)))
                         if len(sig) == 1 and len(exp) == 1 and isinstance(sig[0], int) and isinstance(exp[0], int):
